@@ -512,19 +512,24 @@ impl<'tcx> TyGenContext<'_, 'tcx> {
                     },
                     _ => unreachable!("AST/HIR variant {:?} unknown.", return_type),
                 };
-                // Add size for checking whether or not we're a pass/fail result. And we make sure to see if our error type is bigger, so if we need to add extra width based on that:
-                let size = std::cmp::max(
-                    layout.size(),
-                    match return_type {
-                        // We already account for an error in the Write match up above:
-                        ReturnType::Fallible(_, e) if e.is_some() => {
-                            crate::js::layout::type_size_alignment(&e.clone().unwrap(), self.tcx)
-                                .size()
-                        }
-                        _ => 0,
-                    },
-                ) + 1;
-                let align = layout.align();
+                // The result is a `#[repr(C)]` struct of the union of both payloads followed by the flag: the union is
+                // as aligned as its most aligned payload and its size is a multiple of that alignment, and the flag
+                // sits directly behind it.
+                let (size, align) = match return_type {
+                    // We already account for an error in the Write match up above:
+                    ReturnType::Fallible(ref ok_ty, Some(ref e)) => {
+                        let err_layout = crate::js::layout::type_size_alignment(e, self.tcx);
+                        // A unit success value takes no room next to an error payload
+                        let (ok_size, ok_align) = match ok_ty {
+                            SuccessType::Unit => (0, 1),
+                            _ => (layout.size(), layout.align()),
+                        };
+                        let align = std::cmp::max(ok_align, err_layout.align());
+                        let payload = std::cmp::max(ok_size, err_layout.size());
+                        (payload.div_ceil(align) * align + 1, align)
+                    }
+                    _ => (layout.size() + 1, layout.align()),
+                };
 
                 if requires_buf {
                     method_info.alloc_expressions.push(
